@@ -707,6 +707,12 @@ class PowerExpression(BinaryExpression):
         return self.make_ml_tag("msup", "{}{}".format(left_ml, right_ml), self.classes)
 
     def operate(self, one: NumberType, two: NumberType) -> NumberType:
+        if isinstance(one, (int, np.integer)) and isinstance(two, (int, np.integer)):
+            # Python integers are exact at any magnitude (numpy wraps at 64 bits and
+            # refuses negative integer exponents)
+            if two >= 0:
+                return int(one) ** int(two)
+            return np.power(float(one), two)
         return np.power(one, two)
 
     def __str__(self) -> str:
